@@ -30,7 +30,7 @@ pub fn run(ctx: &Ctx) -> i32 {
     let trees = families::plain(if th { 4 } else { 3 });
     let maxlen = if th { 3 } else { 2 };
     let mut all_lists = vec![]; for l in 1..=maxlen { all_lists.extend(lists(nlisted, l)) }
-    let acc = trees.par_iter().enumerate().map(|(ti, m)| {
+    let acc = trees.par_iter().enumerate().with_max_len(1).map(|(ti, m)| {
         let mut acc = Acc::new();
         let e = bind::build(m, 0);
         let subj_obs = bind::observe(&e.subject());
